@@ -436,6 +436,13 @@ func record(p Program) {
 	if differ(kSetVar, func(op Op) string { return fmt.Sprint(op.A, op.B, op.V) }) {
 		labels = append(labels, "same-font-with-different-variations-or-ppem")
 	}
+	for _, ops := range p.Goroutines {
+		for _, op := range ops {
+			if op.K == kOutline && op.Mut != 0 {
+				ev.Label("outline-modified-in-place-by-its-receiver:" + p.Pool[op.F].Kind)
+			}
+		}
+	}
 	if differ(kFmQuery, func(op Op) string { return fmt.Sprint(op.Fam, op.Style, op.Weight, op.Stretch, op.Script) }) {
 		labels = append(labels, "different-queries-across-goroutines")
 	}
@@ -695,6 +702,16 @@ func genOp(t *rapid.T, pool []*poolFont, kind string, f int) Op {
 		op.A = rapid.IntRange(0, 12).Draw(t, "point")
 	case kOutline:
 		op.G = genGids(t, pf, 5)
+		if rapid.IntRange(0, 1).Draw(t, "lowgids") == 0 {
+			// a small range of glyph ids, so that goroutines ask for the same glyphs
+			for i := range op.G {
+				op.G[i] = uint32(rapid.IntRange(0, 15).Draw(t, "lowgid"))
+			}
+		}
+		if rapid.IntRange(0, 1).Draw(t, "mutate") == 0 {
+			op.Mut = rapid.IntRange(1, 3).Draw(t, "mutation")
+			op.Size = rapid.SampledFrom([]int{0, 880, 1000, -200}).Draw(t, "sidewaysoffset")
+		}
 		if rapid.IntRange(0, 2).Draw(t, "glyphrun") == 0 {
 			op.A = rapid.IntRange(1, 32).Draw(t, "runlength")
 		}
